@@ -2,7 +2,7 @@
    Property theorems only: each is closed by `exact <lemma>` (lemmas in Proofs/HolmP.v,
    Proofs/PenetranceP.v). *)
 From Coq Require Import ZArith List Bool Arith Lia Permutation Sorted.
-From CTM Require Import Base.Sx Model.Holm Model.Penetrance Proofs.HolmP Proofs.PenetranceP Proofs.BoringP.
+From CTM Require Import Base.Sx Model.Holm Model.Penetrance Model.Stats Model.Welch Proofs.HolmP Proofs.PenetranceP Proofs.BoringP.
 Import ListNotations.
 Open Scope Z_scope.
 
@@ -103,32 +103,43 @@ Proof.
 Qed.
 
 (* The CDF half and the full statement.
-   Vocabulary (Proofs/BoringP.v; S = 2*H is the common denominator of CDF values, p-values and
-   p_th = T/S, so H/S = 0.5; a gene is (nu, t), t an integer over any common denominator):
+   Vocabulary (Model/Welch.v, Proofs/BoringP.v; S = 2*H is the common denominator of CDF values,
+   p-values and p_th = T/S, so H/S = 0.5; a gene is (nu, t), t an integer over any common denominator):
      p_of_cdf H lo hi c  := the code's p-value from a CDF value: NaN (None) -> 0.5, np.clip to
                             [lo, hi] = [eps, ceil], then 2*cdf if cdf < 0.5 else 2*(1 - cdf)
                             (i.e. the two-sided p = 2*min(cdf, 1 - cdf))
      exact_p t_cdf H lo hi (nu, t) := p_of_cdf H lo hi (t_cdf nu t)       (exact_welch_t_test)
      boring b (nu, t)    := not (t < -b or t > b)                          (|t| <= boring_t)
      skip_p ... b g      := p_of_cdf of 0.5 if boring b g else exact_p g   (approximate_welch_t_test)
-   t_cdf : nu -> t -> option Z and norm_cdf : t -> Z stand for scipy.stats.t.cdf / norm.cdf.
-   The premises marked (scipy) are ASSUMPTIONS ABOUT SCIPY'S FUNCTIONS, assumed and not proved:
-     - t.cdf(., nu) is monotone in t,
-     - t.cdf(-t, nu) = 1 - t.cdf(t, nu),
-     - whether t.cdf is NaN depends on nu only,
-     - the Student lower tail is at least the normal one: t.cdf(-x, nu) >= norm.cdf(-x) for x >= 0.
-   The premise T <= 2 * norm_cdf (-b) is how boring_t_from_p_value chooses boring_t (the harness
-   checks it numerically on every run); the others describe the setting (eps <= 0.5 <= ceil <= 1,
-   p_th <= 1, boring_t >= 0). *)
+   t_cdf : nu -> t -> option Z stands for scipy.stats.t.cdf (big_nu = None in both marker routes, so
+   the normal CDF never enters).
+   PREMISES - none of them is proved; each is about the real boring_t / scipy's values and each is
+   evaluated NUMERICALLY BY THE HARNESS on every run (harness/props/c11.py: boring_premises, called
+   for every (t, nu) that occurs in welch_cases, and boring_premise_cases over p_th in
+   [1e-11, 0.0455] x nu in [0.1, 1e6]; a false premise is reported as a violation of class
+   c11-boring-premise-false-on-occurring-value carrying the values):
+     (end_lo)  t_cdf nu (-b) = Some c -> T <= 2*c            2*t.cdf(-boring_t, nu) >= p_th
+     (end_hi)  t_cdf nu b = Some c -> T <= 2*(2H - c)        2*(1 - t.cdf(boring_t, nu)) >= p_th
+     (mono)    t.cdf(., nu) is monotone ON [-boring_t, boring_t]
+     (nan)     whether t.cdf is NaN depends on nu only, on [-boring_t, boring_t]
+   The earlier premise `T <= 2*norm_cdf(-b)` was false of the real function (the audit's table:
+   np.interp overshoots, 2*norm.cdf(-boring_t) = p_th*(1 - 1.4e-6..2.2e-5)) and symmetry of the CDF
+   for every t is false of a saturating binary64 CDF; neither is used any more.  (end_lo)/(end_hi)
+   hold for the real functions exactly as long as nu is below a limit that depends on p_th (measured
+   on every run, evidence key boring_premise_end_lo_holds_up_to_nu: 8.6e6 for p_th = 0.01, 3.2e6
+   for 0.02): beyond it the Student tail is within the interpolation error of the normal one, the
+   premise is false and SO IS THE CONCLUSION - c11_boring_needs_end_lo below and finding F21
+   (reproduced with the real score_differential_genes on two clusters of 1e7 cells).  The others
+   describe the setting (eps <= 0.5 <= ceil <= 1, p_th <= 1, boring_t >= 0). *)
 
 (* |t| <= boring_t => the exact two-sided p-value of the gene is >= p_th *)
-Theorem c11_boring_exact_p_ge : forall (H lo hi T b : Z) (t_cdf : Z -> Z -> option Z) (norm_cdf : Z -> Z),
+Theorem c11_boring_exact_p_ge : forall (H lo hi T b : Z) (t_cdf : Z -> Z -> option Z),
   0 < H -> 0 <= lo <= H -> H <= hi <= 2 * H -> T <= 2 * H -> 0 <= b ->
-  T <= 2 * norm_cdf (- b) ->
-  (* scipy *) (forall nu a a' c c', a <= a' -> t_cdf nu a = Some c -> t_cdf nu a' = Some c' -> c <= c') ->
-  (* scipy *) (forall nu a c, t_cdf nu a = Some c -> t_cdf nu (- a) = Some (2 * H - c)) ->
-  (* scipy *) (forall nu a a', t_cdf nu a = None -> t_cdf nu a' = None) ->
-  (* scipy *) (forall nu x c, 0 <= x -> t_cdf nu (- x) = Some c -> norm_cdf (- x) <= c) ->
+  (* end_lo *) (forall nu c, t_cdf nu (- b) = Some c -> T <= 2 * c) ->
+  (* end_hi *) (forall nu c, t_cdf nu b = Some c -> T <= 2 * (2 * H - c)) ->
+  (* scipy *) (forall nu a a' c c', - b <= a -> a <= a' -> a' <= b ->
+                 t_cdf nu a = Some c -> t_cdf nu a' = Some c' -> c <= c') ->
+  (* scipy *) (forall nu a a', - b <= a <= b -> - b <= a' <= b -> t_cdf nu a = None -> t_cdf nu a' = None) ->
   forall nu t, - b <= t <= b -> T <= exact_p t_cdf H lo hi (nu, t).
 Proof. exact boring_exact_ge. Qed.
 Print Assumptions c11_boring_exact_p_ge.
@@ -138,13 +149,13 @@ Print Assumptions c11_boring_exact_p_ge.
    genes are >= p_th; no decision `corrected p < p_th` of the full Holm correction changes, and
    the restricted correction run on the replaced values decides exactly like the full
    correction on the exact values *)
-Theorem c11_boring_t_sound : forall (H lo hi T b : Z) (t_cdf : Z -> Z -> option Z) (norm_cdf : Z -> Z),
+Theorem c11_boring_t_sound : forall (H lo hi T b : Z) (t_cdf : Z -> Z -> option Z),
   0 < H -> 0 <= lo <= H -> H <= hi <= 2 * H -> T <= 2 * H -> 0 <= b ->
-  T <= 2 * norm_cdf (- b) ->
-  (* scipy *) (forall nu a a' c c', a <= a' -> t_cdf nu a = Some c -> t_cdf nu a' = Some c' -> c <= c') ->
-  (* scipy *) (forall nu a c, t_cdf nu a = Some c -> t_cdf nu (- a) = Some (2 * H - c)) ->
-  (* scipy *) (forall nu a a', t_cdf nu a = None -> t_cdf nu a' = None) ->
-  (* scipy *) (forall nu x c, 0 <= x -> t_cdf nu (- x) = Some c -> norm_cdf (- x) <= c) ->
+  (* end_lo *) (forall nu c, t_cdf nu (- b) = Some c -> T <= 2 * c) ->
+  (* end_hi *) (forall nu c, t_cdf nu b = Some c -> T <= 2 * (2 * H - c)) ->
+  (* scipy *) (forall nu a a' c c', - b <= a -> a <= a' -> a' <= b ->
+                 t_cdf nu a = Some c -> t_cdf nu a' = Some c' -> c <= c') ->
+  (* scipy *) (forall nu a a', - b <= a <= b -> - b <= a' <= b -> t_cdf nu a = None -> t_cdf nu a' = None) ->
   forall (genes : list gene) (p' : list Z),
   Forall (fun x => 0 <= x <= 2 * H) p' ->
   Forall2 (fun g v' => if boring b g then T <= v' else v' = exact_p t_cdf H lo hi g) genes p' ->
@@ -157,13 +168,13 @@ Proof. exact boring_t_sound. Qed.
 Print Assumptions c11_boring_t_sound.
 
 (* ... in particular for the values the code uses (cdf = 0.5, hence p = 1, for the skipped genes) *)
-Theorem c11_boring_t_sound_code : forall (H lo hi T b : Z) (t_cdf : Z -> Z -> option Z) (norm_cdf : Z -> Z),
+Theorem c11_boring_t_sound_code : forall (H lo hi T b : Z) (t_cdf : Z -> Z -> option Z),
   0 < H -> 0 <= lo <= H -> H <= hi <= 2 * H -> T <= 2 * H -> 0 <= b ->
-  T <= 2 * norm_cdf (- b) ->
-  (* scipy *) (forall nu a a' c c', a <= a' -> t_cdf nu a = Some c -> t_cdf nu a' = Some c' -> c <= c') ->
-  (* scipy *) (forall nu a c, t_cdf nu a = Some c -> t_cdf nu (- a) = Some (2 * H - c)) ->
-  (* scipy *) (forall nu a a', t_cdf nu a = None -> t_cdf nu a' = None) ->
-  (* scipy *) (forall nu x c, 0 <= x -> t_cdf nu (- x) = Some c -> norm_cdf (- x) <= c) ->
+  (* end_lo *) (forall nu c, t_cdf nu (- b) = Some c -> T <= 2 * c) ->
+  (* end_hi *) (forall nu c, t_cdf nu b = Some c -> T <= 2 * (2 * H - c)) ->
+  (* scipy *) (forall nu a a' c c', - b <= a -> a <= a' -> a' <= b ->
+                 t_cdf nu a = Some c -> t_cdf nu a' = Some c' -> c <= c') ->
+  (* scipy *) (forall nu a a', - b <= a <= b -> - b <= a' <= b -> t_cdf nu a = None -> t_cdf nu a' = None) ->
   forall genes : list gene,
   let p := map (exact_p t_cdf H lo hi) genes in
   let p' := map (skip_p t_cdf H lo hi b) genes in
@@ -173,20 +184,35 @@ Theorem c11_boring_t_sound_code : forall (H lo hi T b : Z) (t_cdf : Z -> Z -> op
 Proof. exact boring_t_sound_code. Qed.
 Print Assumptions c11_boring_t_sound_code.
 
-(* the premises are satisfiable together: a toy pair of CDFs over S = 64 (0.5 = 32/64),
-     t_cdf(t, nu) = clamp(32 + 8t, 1, 63)/64, NaN for nu <= 0;  norm_cdf(t) = clamp(32 + 16t, 0, 64)/64,
+(* end_lo cannot be dropped: with a CDF that is monotone everywhere and boring_t a little too large
+   (2*cdf(-boring_t) < p_th, the situation of the real code against the normal limit at huge nu) the
+   exact route records the single gene at t = -boring_t and the skipping route does not *)
+Theorem c11_boring_needs_end_lo :
+  exists (H lo hi T b : Z) (t_cdf : Z -> Z -> option Z) (genes : list gene),
+    0 < H /\ 0 <= lo <= H /\ H <= hi <= 2 * H /\ T <= 2 * H /\ 0 <= b /\
+    (forall nu a a' c c', a <= a' -> t_cdf nu a = Some c -> t_cdf nu a' = Some c' -> c <= c') /\
+    (forall nu a a', t_cdf nu a = None -> t_cdf nu a' = None) /\
+    ~ (forall nu c, t_cdf nu (- b) = Some c -> T <= 2 * c) /\
+    map (fun v => v <? T) (correct_ttest (2 * H) 0 (map (exact_p t_cdf H lo hi) genes)) = [true] /\
+    map (fun v => v <? T) (approx_correct_ttest (2 * H) T (map (skip_p t_cdf H lo hi b) genes)) = [false].
+Proof. exact boring_unsound_without_end_lo. Qed.
+Print Assumptions c11_boring_needs_end_lo.
+
+(* the premises are satisfiable together: a toy saturating CDF over S = 64 (0.5 = 32/64),
+     t_cdf(t, nu) = clamp(32 + 8t, 1, 63)/64, NaN for nu <= 0,
    clip to [1/64, 63/64], p_th = 20/64, boring_t = 1; five genes: two skipped (t = 0, t = -1:
    exact p = 1 and 48/64, both >= p_th), t = 3 (p = 16/64, not significant after correction),
-   one NaN (p = 1), t = -4 (p = 2/64, significant) *)
+   one NaN (p = 1), t = -4 (p = 2/64, significant).  The premises on REAL values (binary64 numbers
+   of scipy at the real boring_t) are evaluated by the harness, not here. *)
 Example c11_boring_nonvacuous_cdf :
   0 < 32 /\ 0 <= 1 <= 32 /\ 32 <= 63 <= 2 * 32 /\ 20 <= 2 * 32 /\ 0 <= 1 /\
-  20 <= 2 * toy_norm_cdf (- 1) /\
-  (forall nu a a' c c', a <= a' -> toy_t_cdf nu a = Some c -> toy_t_cdf nu a' = Some c' -> c <= c') /\
-  (forall nu a c, toy_t_cdf nu a = Some c -> toy_t_cdf nu (- a) = Some (2 * 32 - c)) /\
-  (forall nu a a', toy_t_cdf nu a = None -> toy_t_cdf nu a' = None) /\
-  (forall nu x c, 0 <= x -> toy_t_cdf nu (- x) = Some c -> toy_norm_cdf (- x) <= c).
+  (forall nu c, toy_t_cdf nu (- 1) = Some c -> 20 <= 2 * c) /\
+  (forall nu c, toy_t_cdf nu 1 = Some c -> 20 <= 2 * (2 * 32 - c)) /\
+  (forall nu a a' c c', - 1 <= a -> a <= a' -> a' <= 1 ->
+      toy_t_cdf nu a = Some c -> toy_t_cdf nu a' = Some c' -> c <= c') /\
+  (forall nu a a', - 1 <= a <= 1 -> - 1 <= a' <= 1 -> toy_t_cdf nu a = None -> toy_t_cdf nu a' = None).
 Proof.
-  destruct toy_hyps as (H1 & H2 & H3 & H4 & H5).
+  destruct toy_hyps as (H1 & H2 & H3 & H4).
   repeat split; try lia; assumption.
 Qed.
 Example c11_boring_nonvacuous_values :
